@@ -1,5 +1,5 @@
 (* Proofs for C12 (equality and ordering of values). *)
-From Coq Require Import String List ZArith Bool NArith Lia Reals.
+From Coq Require Import String List ZArith Bool NArith Lia Reals Lra.
 From Flocq Require Import Core.Core IEEE754.BinarySingleNaN IEEE754.Binary IEEE754.Bits.
 From RV Require Import Base.F64 Base.Text Base.ListX Model.Units Model.Numeric Model.CssStr Model.ValueEq.
 Import ListNotations.
@@ -258,6 +258,121 @@ Proof.
   - cbn [orb] in H. destruct (numeric_eq_unitless_vs_unit a b E H) as [-> ->]. reflexivity.
 Qed.
 
+(* ---- two different convertible units (fix 14ede20): both orders compare the same two magnitudes ---- *)
+Lemma B2R_one : B2R 53 1024 f_one = 1%R.
+Proof.
+  unfold f_one, of_bits. 
+  match goal with |- B2R _ _ ?x = _ => let y := eval vm_compute in x in change x with y end.
+  unfold B2R, F2R. cbn [Fnum Fexp cond_Zopp]. simpl bpow. lra.
+Qed.
+
+Lemma fmul_one_finite : forall x, f_is_finite x = true -> fmul x f_one = x.
+Proof.
+  intros x Hx. unfold fmul, b64_mult, f_is_finite in *.
+  match goal with |- Bmult 53 1024 ?p ?q _ _ _ _ = _ =>
+    pose proof (Bmult_correct 53 1024 p q binop_nan_pl64 mode_NE x f_one) as H;
+    set (z := Bmult 53 1024 p q binop_nan_pl64 mode_NE x f_one) in * end.
+  rewrite B2R_one, Rmult_1_r in H.
+  rewrite round_generic in H; [|apply valid_rnd_round_mode|apply generic_format_B2R].
+  rewrite Rlt_bool_true in H by (apply abs_B2R_lt_emax).
+  destruct H as [R [F S]].
+  apply B2R_Bsign_inj.
+  - rewrite F, Hx. reflexivity.
+  - exact Hx.
+  - exact R.
+  - rewrite S.
+    + assert (Bsign 53 1024 f_one = false) as -> by reflexivity. apply xorb_false_r.
+    + destruct z; try reflexivity. rewrite Hx in F. cbn in F. discriminate F.
+Qed.
+
+Lemma fmul_one_eqv : forall x, fmul x f_one = x \/ (f_is_nan (fmul x f_one) = true /\ f_is_nan x = true).
+Proof.
+  intros x. destruct (f_is_finite x) eqn:F; [left; apply fmul_one_finite; exact F|].
+  destruct x; try discriminate; [left; destruct s; reflexivity|right; split; reflexivity].
+Qed.
+
+Definition cmp_is_eq (p q : f64) : bool := match number_cmp p q with Some Eq => true | _ => false end.
+
+Lemma cmp_is_eq_sym : forall p q, cmp_is_eq p q = cmp_is_eq q p.
+Proof.
+  intros p q. unfold cmp_is_eq, number_cmp. rewrite (number_eq_sym q p).
+  destruct (number_eq p q); [reflexivity|]. apply fcmp_eq_sym_iff.
+Qed.
+
+Lemma fsub_nan_r : forall x y, f_is_nan y = true -> f_is_nan (fsub x y) = true.
+Proof. intros x y H. destruct y; try discriminate. destruct x; reflexivity. Qed.
+Lemma fcmp_nan_r : forall x y, f_is_nan y = true -> fcmp x y = None.
+Proof. intros x y H. destruct y; try discriminate. destruct x; reflexivity. Qed.
+Lemma cmp_is_eq_nan_r : forall p q, f_is_nan q = true -> cmp_is_eq p q = false.
+Proof.
+  intros p q H. unfold cmp_is_eq, number_cmp, number_eq.
+  rewrite fle_nan_l; [rewrite (fcmp_nan_r p q H); reflexivity|].
+  apply fdiv_nan_l. rewrite is_nan_fabs. apply fsub_nan_r. exact H.
+Qed.
+Lemma cmp_is_eq_mul_one : forall p q, cmp_is_eq p (fmul q f_one) = cmp_is_eq p q.
+Proof.
+  intros p q. destruct (fmul_one_eqv q) as [->|[H1 H2]]; [reflexivity|].
+  rewrite !cmp_is_eq_nan_r; auto.
+Qed.
+
+Definition real_units : list unit := filter (fun u => negb (is_unit_none u)) all_known_units.
+Definition is_one (s : f64) : bool := (to_bits s =? to_bits f_one)%Z.
+(* for every pair of known units: no conversion either way, or exactly one direction enlarges the magnitude,
+   or both factors are exactly 1.0 (vmin / vmax) *)
+Definition dir_ok (u v : unit) : bool :=
+  unit_eqb u v ||
+  match unit_scale_to v u, unit_scale_to u v with
+  | Some s, Some t => xorb (fge s f_one) (fge t f_one) || (is_one s && is_one t)
+  | None, None => true
+  | _, _ => false
+  end.
+Lemma dir_sweep : forallb (fun u => forallb (dir_ok u) real_units) real_units = true.
+Proof. vm_compute. reflexivity. Qed.
+
+Lemma is_one_eq : forall s, is_one s = true -> s = f_one.
+Proof.
+  intros s H. unfold is_one in H. apply Z.eqb_eq in H. unfold to_bits in H.
+  rewrite <- (binary_float_of_bits_of_binary_float 52 11 eq_refl eq_refl eq_refl s).
+  rewrite <- (binary_float_of_bits_of_binary_float 52 11 eq_refl eq_refl eq_refl f_one).
+  unfold bits_of_b64 in H. rewrite H. reflexivity.
+Qed.
+
+Lemma num_eqb_cmp : forall a b, num_eqb a b = match numeric_cmp a b with Some (Some Eq) => true | _ => false end.
+Proof. intros. unfold num_eqb, numeric_eq. destruct (numeric_cmp a b) as [[[| |]|]|]; reflexivity. Qed.
+
+Lemma real_unit_not_none : forall u, In u real_units -> is_unit_none u = false.
+Proof.
+  intros u H. apply negb_true_iff.
+  exact (proj2 (proj1 (filter_In (fun u => negb (is_unit_none u)) u all_known_units) H)).
+Qed.
+
+(* Numeric equality of two numbers with single known units is symmetric, convertible or not *)
+Lemma num_eqb_sym_units : forall u v x y, In u real_units -> In v real_units ->
+  num_eqb (mkNum x (us_of_unit u)) (mkNum y (us_of_unit v)) = num_eqb (mkNum y (us_of_unit v)) (mkNum x (us_of_unit u)).
+Proof.
+  intros u v x y Hu Hv.
+  pose proof (sweep2 real_units real_units dir_ok dir_sweep u v Hu Hv) as D.
+  pose proof (real_unit_not_none u Hu) as Nu. pose proof (real_unit_not_none v Hv) as Nv.
+  unfold us_of_unit. rewrite Nu, Nv.
+  destruct (unit_eqb u v) eqn:E.
+  - apply numeric_eq_sym_same_unit. cbn [nunit us_eqb]. rewrite E. reflexivity.
+  - unfold dir_ok in D. rewrite E in D. cbn [orb] in D.
+    rewrite !num_eqb_cmp. unfold numeric_cmp. cbn [nunit nval us_eqb].
+    rewrite (unit_eqb_sym v u), E. cbn [andb].
+    unfold num_is_no_unit. cbn [nunit us_is_none forallb fst]. rewrite Nu, Nv. cbn [andb orb].
+    cbn [us_scale_to us_scale_to_unit].
+    destruct (unit_scale_to v u) as [s|] eqn:S1, (unit_scale_to u v) as [t|] eqn:S2; try discriminate; [|reflexivity].
+    fold (cmp_is_eq x (fmul y s)). 
+    destruct (fge s f_one) eqn:G1, (fge t f_one) eqn:G2; cbn [xorb orb] in D.
+    + (* both factors are exactly one *)
+      apply andb_true_iff in D. destruct D as [D1 D2]. apply is_one_eq in D1, D2. subst s t.
+      change (cmp_is_eq x (fmul y f_one) = cmp_is_eq y (fmul x f_one)).
+      rewrite !cmp_is_eq_mul_one. apply cmp_is_eq_sym.
+    + change (cmp_is_eq x (fmul y s) = cmp_is_eq (fmul y s) x). apply cmp_is_eq_sym.
+    + change (cmp_is_eq (fmul x t) y = cmp_is_eq y (fmul x t)). apply cmp_is_eq_sym.
+    + discriminate.
+Qed.
+
 (* ---- strings: CssString equality is reflexive and symmetric (all stored values, all quotes) ---- *)
 Lemma cps_eqb_refl : forall s, cps_eqb s s = true.
 Proof. unfold cps_eqb. induction s; [reflexivity|]. cbn [list_eqb]. rewrite N.eqb_refl. exact IHs. Qed.
@@ -436,13 +551,6 @@ Definition one : numeric := mkNum (of_bits 4607182418800017408) [].
 Definition below_one : numeric := mkNum (of_bits 4607182418800017406) [].   (* 0.9999999999999998 *)
 (* the former F17 witness now compares equal in both directions *)
 Lemma former_witness : veq (VNum one true) (VNum below_one true) = true /\ veq (VNum below_one true) (VNum one true) = true.
-Proof. vm_compute. split; reflexivity. Qed.
-
-(* F31: two different convertible units: 2.54turn == 914.3999999999997deg, but not the reverse *)
-Definition turn_254 : numeric := mkNum (of_bits 4612901990326777938) (us_of_unit (UK "Turn")).
-Definition deg_9144 : numeric := mkNum (of_bits 4651254363278488369) (us_of_unit (UK "Deg")).
-Lemma refuted_sym_two_units :
-  veq (VNum turn_254 true) (VNum deg_9144 true) = true /\ veq (VNum deg_9144 true) (VNum turn_254 true) = false.
 Proof. vm_compute. split; reflexivity. Qed.
 
 (* ---- trichotomy ---- *)
